@@ -64,6 +64,8 @@ structure CState where
   sent : List (Stash × Bool) := []
   replied : List (Req × Bool) := []
   rets : List (Nat × Bool) := []      -- ghost: synchronous CommitMessages calls that returned (request id, nil?)
+  lstash : Stash := []                -- a SECOND commit loop (D8 shape, see `cstep2`): its stash …
+  lpc : LPC := .none                  -- … and program counter
   deriving Repr
 
 inductive CEv
@@ -174,6 +176,39 @@ def cfirstReject : CState → List CEv → Nat → Option (Nat × CState)
   | s, e :: es, i => match cstep s e with
     | some s' => cfirstReject s' es (i + 1)
     | none => some (i, s)
+
+/-! ### two commit loops at once (D8 shape)
+
+`Reader.run` starts the commit loop of a generation with `gen.Start`; when the generation has already ended the function
+is launched unaccounted (D8) and runs — with its context already cancelled: drain, final commit, answers — possibly
+WHILE the next generation's loop is running.  Both loops receive from the same `r.commits` channel and talk to the
+coordinator; each has its own stash.  `cstep2` runs an event of either loop: the second loop's stash and program counter
+live in `lstash`/`lpc`, everything else (queue, history, answers) is shared. -/
+
+def swap (s : CState) : CState := { s with stash := s.lstash, pc := s.lpc, lstash := s.stash, lpc := s.pc }
+
+inductive CEv2
+  | main (e : CEv)
+  | late (e : CEv)
+  deriving Repr
+
+def cstep2 (s : CState) : CEv2 → Option CState
+  | .main e => cstep s e
+  | .late e =>
+    match e with
+    | .call _ _ => none      -- application events are not loop events
+    | .ret _ _ => none
+    | _ => (cstep (swap s) e).map swap
+
+def crun2 : CState → List CEv2 → Option CState
+  | s, [] => some s
+  | s, e :: es => match cstep2 s e with
+    | some s' => crun2 s' es
+    | none => none
+
+inductive CReachable2 : CState → Prop
+  | init : CReachable2 {}
+  | step {s s' : CState} (e : CEv2) : CReachable2 s → cstep2 s e = some s' → CReachable2 s'
 
 inductive CReachable : CState → Prop
   | init : CReachable {}
